@@ -90,7 +90,13 @@ def run(ctx, rep):
                         toks |= set(lits)
                         chained = False
         ctors = sorted({d.split("::")[-1] for d, n in hirq.calls(b["body"], lambda d: d and d.startswith(LS + "Expression::"))})
-        levels.append({"fn": cur, "tokens": toks, "chained": chained, "operand": operand, "ctors": ctors, "file": b["file"], "line": b["line"]})
+        # every sub-expression parser this level invokes (left operand, right operand inside the loop)
+        subparsers = []
+        for d, node in hirq.calls(b["body"], lambda d: d and d.endswith("Parser::parse_next")):
+            r = hirq.strip(node["recv"])
+            if r.get("e") == "path" and r.get("res") == "Fn" and r["def"].startswith(LS + "parse_"):
+                subparsers.append(r["def"])
+        levels.append({"fn": cur, "tokens": toks, "chained": chained, "operand": operand, "ctors": ctors, "file": b["file"], "line": b["line"], "subparsers": subparsers})
         cur = operand
     binary = [lv for lv in levels if lv["tokens"] and lv["fn"] not in (LS + "parse_unary", LS + "parse_primary")]
     rep.floor("ladder", "binary precedence levels found", len(binary), 8)
@@ -130,6 +136,16 @@ def run(ctx, rep):
             rep.ob("ladder", "merged:equality+relational", False, "equality and relational operators share one level: `1 < 2 == 1` parses as a single non-chained comparison instead of (1 < 2) == 1", lv["file"], lv["line"])
         rep.ob("ladder", f"assoc:{lname(binary.index(lv))}", lv["chained"] is True,
                f"level {sorted(t)} {'chains (left-associative)' if lv['chained'] else 'accepts a single operator: `a op b op c` is rejected or mis-parsed, GNU ld chains left-to-right'}", lv["file"], lv["line"])
+    # left associativity: a chaining level parses *both* operands with the next-tighter level. Parsing the right operand with the level
+    # itself makes `a op b op c` group as a op (b op c) (differs for - / << >>); parsing it with any other level punches a precedence hole.
+    for lv, t in zip(binary, norm):
+        subs = lv.get("subparsers") or []
+        others = sorted({x.split("::")[-1] for x in subs if x != lv["operand"]})
+        rep.ob("ladder", f"operands:{lname(binary.index(lv))}", len(subs) >= 2 and not others,
+               f"level {sorted(t)} parses {len(subs)} operand(s), all with {str(lv['operand']).split('::')[-1]}" if not others else
+               f"level {sorted(t)} parses an operand with {others} instead of {str(lv['operand']).split('::')[-1]}: "
+               + ("the operator becomes right-associative (`a op b op c` = a op (b op c); GNU ld and C group left-to-right)" if lv["fn"].split("::")[-1] in others else "precedence differs from C"),
+               lv["file"], lv["line"])
     n_ok = sum(1 for a in ops for b_ in ops if c_pos[a] < c_pos[b_] and wild_pos[a] < wild_pos[b_])
     rep.ob("ladder", "pairs-in-C-order", n_ok >= 1, f"{n_ok} operator pairs are ordered as in C")
     # ctor agreement
